@@ -123,11 +123,23 @@ _lock_fd = None
 
 
 def take_lock():
-    """Serialise checks that share /verif/work (target dir, run dirs)."""
-    global _lock_fd
+    """Checks of different properties may run concurrently: every property has its own run directory, replay files and
+    evidence file. Only the build steps that (re)create shared directories are serialised (build_lock)."""
     os.makedirs(WORK, exist_ok=True)
-    _lock_fd = open(os.path.join(WORK, ".lock"), "w")
-    fcntl.flock(_lock_fd, fcntl.LOCK_EX)
+
+
+class build_lock:
+    """flock around steps that write shared build inputs/outputs (cargo target dirs lock themselves, but the simd128 copy
+    and the Miri warm-up builds are recreated in place)."""
+    def __enter__(self):
+        os.makedirs(WORK, exist_ok=True)
+        self.fd = open(os.path.join(WORK, ".build.lock"), "w")
+        fcntl.flock(self.fd, fcntl.LOCK_EX)
+        return self
+
+    def __exit__(self, *a):
+        fcntl.flock(self.fd, fcntl.LOCK_UN)
+        self.fd.close()
 
 
 # --------------------------------------------------------------------------
@@ -245,6 +257,11 @@ def build_simd128():
     """The simd128 vehicle: cfg-rewritten copy of /repo's current src + emulated intrinsics (optional vehicle)."""
     if "simd128" in _built:
         return _built["simd128"]
+    with build_lock():
+        return _build_simd128_locked()
+
+
+def _build_simd128_locked():
     p = subprocess.run([os.path.join(VERIF, "bin", "mk_simd128")], stdout=subprocess.PIPE, stderr=subprocess.STDOUT, text=True, env=dict(os.environ, VERIF_WORK=WORK))
     if p.returncode != 0:
         raise ToolError("mk_simd128 failed: " + p.stdout[-2000:])
@@ -285,7 +302,8 @@ def build_harness(profile="dev", features=None, rustflags_extra=None, target=Non
     if rustflags_extra:
         env["RUSTFLAGS"] = " ".join(BASE_RUSTFLAGS + list(rustflags_extra))
     t0 = time.time()
-    p = subprocess.run(cmd, cwd=HARNESS, env=env, stdout=subprocess.PIPE, stderr=subprocess.STDOUT, text=True)
+    with build_lock():
+        p = subprocess.run(cmd, cwd=HARNESS, env=env, stdout=subprocess.PIPE, stderr=subprocess.STDOUT, text=True)
     if p.returncode != 0:
         raise ToolError("harness build failed (%s):\n%s" % (" ".join(cmd), p.stdout[-4000:]))
     path = os.path.join(tdir, "release" if profile == "release" else "debug", "verif-harness")
